@@ -1,5 +1,7 @@
+import NA.Model.GateDrv
 import NA.Core.IOUtil
-/-! Driver stub for C11 (not built yet): echoes its input. -/
+/-! Driver for C11: same protocol and model as nadrv-c06 (NA/Model/GateDrv.lean); the harness
+asks for `compare` runs, with and without injected faults. -/
 def main (_ : List String) : IO UInt32 := do
-  NA.IOUtil.eachLine id
+  NA.IOUtil.eachLine NA.Gate.Drv.answer
   return 0
